@@ -11,6 +11,7 @@ Property theorems only.
 import SfsModel.Model.Stat
 import SfsModel.Model.Npy
 import SfsModel.Model.Create
+import SfsModel.Model.SpecCli
 import SfsModel.Props.C19
 import SfsModel.Lemmas.Guards
 namespace Sfs.C17
@@ -117,6 +118,15 @@ theorem writer_guards (shape : List Nat) :
 theorem map_shape_guard (l : List (String × Pop)) :
     ∀ id, id < numPops (sampleMap l) → ∃ p ∈ sampleMap l, p.2 = id := by
   exact gd_map_shape_guard l
+
+/-! ## input selection -/
+
+/-- input_rule: `Input::new` refuses exactly the two contradictory situations, and only when `SFS_ALLOW_STDIN` is unset;
+    otherwise a path wins over stdin. It never panics (no `unwrap` on the path). -/
+theorem input_rule (p t e : Bool) :
+    (inputNew p t e = none ↔ (e = false ∧ ((p = true ∧ t = false) ∨ (p = false ∧ t = true)))) ∧
+    (∀ s, inputNew p t e = some s → (s = .path ↔ p = true)) := by
+  cases p <;> cases t <;> cases e <;> decide
 
 /-! non-vacuity -/
 example : pixyCells [3, 2] 6 = [(0, 1), (1, 0), (1, 1), (2, 0)] ∧ pixyCells [0, 3] 0 = [] ∧ pixyCells [1, 1] 1 = [] := by decide
